@@ -7,6 +7,8 @@ types: char schar uchar short ushort int uint long ulong llong ullong   (Spec.CI
 """
 import io
 import logging
+import multiprocessing
+import multiprocessing.pool
 import os
 import subprocess
 import sys
@@ -433,12 +435,12 @@ def run_unit(job):
 def run_units(jobs, workers=None):
     """run jobs in a small process pool (<= 4 workers: the machine is shared)"""
     import multiprocessing
+    import multiprocessing.pool  # noqa: F401
     workers = workers or int(os.environ.get("C01_WORKERS", "4"))
     workers = max(1, min(workers, len(jobs)))
     if workers == 1:
         return [run_any(j) for j in jobs]
-    ctx = multiprocessing.get_context("fork")
-    pool = ctx.Pool(workers)
+    pool = NestablePool(workers)
     try:
         out = pool.map(run_any, jobs, chunksize=1)
         pool.close()
@@ -446,6 +448,28 @@ def run_units(jobs, workers=None):
         return out
     finally:
         pool.terminate()
+
+
+class _NoDaemonProcess(__import__("multiprocessing").context.ForkProcess):
+    """pool workers that may fork a child themselves (the native x86-64 runs execute generated machine code in a
+    forked grandchild so that a crash cannot take the worker down)"""
+    @property
+    def daemon(self):
+        return False
+
+    @daemon.setter
+    def daemon(self, value):
+        pass
+
+
+class _NoDaemonContext(type(__import__("multiprocessing").get_context("fork"))):
+    Process = _NoDaemonProcess
+
+
+class NestablePool(__import__("multiprocessing").pool.Pool):
+    def __init__(self, *args, **kwargs):
+        kwargs["context"] = _NoDaemonContext()
+        super().__init__(*args, **kwargs)
 
 
 def run_any(job):
